@@ -77,7 +77,8 @@ Definition kij_matrix (segss : list (list N)) (sbin : list (N * N * Q)) : list (
         else Qred (kij (nth j segss []) (nth i segss []) sbin)) (seq 0 n)) (seq 0 n).
 
 Record seg_case := mkSegCase {
-  sc_opt : idopt; sc_query : list N; sc_chems : list chem; sc_srecs : list (N * seg); sc_sbin : option (list (N * N * Q)) }.
+  sc_opt : idopt; sc_query : list N; sc_chems : list chem; sc_srecs : list (N * seg); sc_mus : list (N * Q);
+  sc_sbin : option (list (N * N * Q)) }.
 
 Definition qpair (q : Q) : Z * positive := (Qnum (Qred q), Qden (Qred q)).
 
@@ -103,7 +104,8 @@ Definition chem_bonds (c : chem) : list (nat * nat) :=
   match ch_bnds c with Some b => b | None => default_bonds (List.length (ch_segs c)) end.
 
 Inductive hres :=
-| HOk (comps : list (list (N * nat) * list ((N * N) * nat) * (Z * positive))) (k : list (N * N * (Z * positive)))
+| HOk (comps : list (list (N * nat) * list ((N * N) * nat) * (Z * positive) * (Z * positive) * (Z * positive) * (Z * positive) * (Z * positive)))
+      (k : list (N * N * (Z * positive)))
 | HErr (code : N) (missing : list N).
 
 Definition all_pairs (l : list N) : list (N * N) := flat_map (fun a => map (fun b => (a, b)) l) l.
@@ -117,7 +119,12 @@ Definition run_hetero (dup_check : bool) (c : seg_case) : hres :=
       | Ok _ =>
           let kinds := dedup (concat (map ch_segs crs)) in
           HOk (map (fun cr => (segment_count (ch_segs cr), bond_count (ch_segs cr) (chem_bonds cr),
-                               qpair (raw_sum f_mw (sc_srecs c) (ch_segs cr)))) crs)
+                               qpair (raw_sum f_mw (sc_srecs c) (ch_segs cr)),
+                               (* dipole: mu^2, and m, m sigma^3, m epsilon sums of the molecule *)
+                               qpair (hetero_mu2 (sc_mus c) (ch_segs cr)),
+                               qpair (raw_sum f_m (sc_srecs c) (ch_segs cr)),
+                               qpair (raw_sum f_s3 (sc_srecs c) (ch_segs cr)),
+                               qpair (raw_sum f_eps (sc_srecs c) (ch_segs cr)))) crs)
               (map (fun ab => (fst ab, snd ab, qpair (hetero_k (match sc_sbin c with Some b => b | None => [] end) (fst ab) (snd ab))))
                    (all_pairs kinds))
       end
@@ -135,6 +142,12 @@ Definition run_serde_binary (b : sbinary) : jobj * option (jobj * bool) :=
   (print_binary b,
    match parse_binary (print_binary b) with
    | Some b' => Some (print_binary b', match b_assoc b' with Some _ => true | None => false end)
+   | None => None end).
+
+Definition run_serde_ebinary (b : sebinary) : jobj * option (jobj * list Z) :=
+  (print_ebinary b,
+   match parse_ebinary (print_ebinary b) with
+   | Some b' => Some (print_ebinary b', eb_kij b')
    | None => None end).
 
 Definition run_serde_chem (o : jobj) : option jobj :=
